@@ -319,6 +319,14 @@ func linGatedCmd(args []string) int {
 	for _, k := range []string{"k1", "k2", "k3"} {
 		wait(call("c1", "get", k, "-", time.Second))
 	}
+	// and the keys written while the flush path stood still are written again and read back: the new writes are numbered by the
+	// log the rotation has installed and must win over the writes made during the rotation
+	wait(call("c2", "put", "k2", "after-2", time.Second))
+	wait(call("c2", "get", "k2", "-", time.Second))
+	wait(call("c3", "del", "k3", "-", time.Second))
+	wait(call("c3", "get", "k3", "-", time.Second))
+	wait(call("c1", "put", "k1", "after-1", time.Second))
+	wait(call("c1", "get", "k1", "-", time.Second))
 	project := func() map[string]string {
 		st := map[string]string{}
 		for _, k := range []string{"k1", "k2", "k3", "k4"} {
